@@ -19,7 +19,7 @@ func NewSimpleQueue[T any](name string, tracer MetricsTracer[T]) *SimpleQueue[T]
 		name:    name,
 		metrics: tracer,
 		list:    list.New(),
-		signal:  make(chan struct{}),
+		signal:  make(chan struct{}, 1),
 	}
 }
 
